@@ -11,6 +11,7 @@ import os
 import random
 import subprocess
 import sys
+import threading
 import time
 import traceback
 import warnings
@@ -532,6 +533,29 @@ def write_evidence(prop, tier, verif_seed, runs, wall, stats, inter, inter_nt, s
     with open(path, 'w') as f:
         json.dump(ev, f, indent=1, sort_keys=True, default=str)
         f.write('\n')
+
+
+_RealThread = threading.Thread
+
+
+def run_maybe_in_thread(fn, in_thread):
+    """Call fn() here, or (a seeded subset of runs) from a helper thread - the library may be used
+    from any thread. Exceptions are re-raised in the caller."""
+    if not in_thread:
+        return fn()
+    box = {}
+
+    def target():
+        try:
+            box['value'] = fn()
+        except BaseException as e:      # re-raised below
+            box['error'] = e
+    t = _RealThread(target=target, name='caller-thread')
+    t.start()
+    t.join()
+    if 'error' in box:
+        raise box['error']
+    return box.get('value')
 
 
 def digest_of(*parts):
